@@ -14,6 +14,7 @@ package main
 
 import (
 	"context"
+	"errors"
 	"io"
 	"log"
 	"runtime"
@@ -124,15 +125,24 @@ func (h *hist) callback(cid int64) qnet.RpcHandler {
 				}
 			}
 		}
+		if cid%5 == 3 { // some callbacks fail: Dispatch hands their error back, ReapTimeout logs it and goes on
+			return errCallback
+		}
 		return nil
 	}
 }
 
+var errCallback = errors.New("callback failed")
+
 // response builds the packet a peer would send back.
-func response(seq uint16, rid int64, errno int32, dec bool) *packet.Packet {
+func response(seq uint16, rid int64, errno int32, decKind int) *packet.Packet {
+	dec := decKind != 0
 	cmd := int32(msgID)
 	if !dec {
 		cmd = unknownMsg
+	}
+	if errno == 0 && decKind == 2 { // an in-process reply: the body already is the message
+		return packet.New(cmd, seq, fatchoy.PFlagRpc, wrapperspb.String("r"+strconv.FormatInt(rid, 10)))
 	}
 	if errno != 0 {
 		p := packet.New(cmd, seq, fatchoy.PFlagRpc, nil)
@@ -275,11 +285,23 @@ func (h *hist) watch(done chan struct{}, ownerGid *int32) (stuck, slow bool) {
 var node = fatchoy.MakeNodeID(3, 7)
 
 // takeRequest reads the request packet makeCall queued (none if the call was refused).
+// reqSeq checks the request packet makeCall put on the queue - command = the registered id of the
+// request message, RPC flag, packet type, destination node, the request itself as body - and returns
+// its sequence number (0 = some field is wrong; a call never carries 0)
+func reqSeq(p fatchoy.IPacket) uint16 {
+	sv, isReq := p.Body().(*wrapperspb.StringValue)
+	if p.Command() != msgID || p.Flag()&fatchoy.PFlagRpc == 0 || p.Flag()&fatchoy.PFlagError != 0 ||
+		p.Type() != fatchoy.PTypePacket || p.Node() != node || !isReq || sv.GetValue() != "q" {
+		return 0
+	}
+	return p.Seq()
+}
+
 func (h *hist) takeRequest(wait *syncCall) (uint16, bool) {
 	if wait == nil {
 		select {
 		case p := <-h.cli.PendingQueue():
-			return p.Seq(), true
+			return reqSeq(p), true
 		default:
 			return 0, false
 		}
@@ -288,14 +310,14 @@ func (h *hist) takeRequest(wait *syncCall) (uint16, bool) {
 	for {
 		select {
 		case p := <-h.cli.PendingQueue():
-			return p.Seq(), true
+			return reqSeq(p), true
 		case <-deadline:
 			return 0, false
 		default:
 			if atomic.LoadInt32(&wait.done) != 0 {
 				select {
 				case p := <-h.cli.PendingQueue():
-					return p.Seq(), true
+					return reqSeq(p), true
 				default:
 					return 0, false
 				}
@@ -350,7 +372,16 @@ func (h *hist) exec(op Sx, r *rec) {
 					if !ours {
 						rid = -1
 					}
-					h.log(comp{cid, 0, int64(ack.Errno()), rid})
+					code := int64(ack.Errno())
+					// what the caller does with the context: DecodeAck gives the reply or the error named by the code
+					if msg, err := ctx.DecodeAck(); code > 0 {
+						if msg != nil || err == nil || err.Error() != codes.Code(code).String() {
+							code = -97
+						}
+					} else if err == nil && ours && ridOf(msg) != rid {
+						code = -97
+					}
+					h.log(comp{cid, 0, code, rid})
 				}
 				atomic.StoreInt32(&sc.done, 1)
 			}()
@@ -364,13 +395,27 @@ func (h *hist) exec(op Sx, r *rec) {
 		}
 		a = int64(seq)
 	case 1:
-		p := response(uint16(op.At(1).Uint64()), op.At(2).Int64(), int32(op.At(3).Int64()), op.At(4).AsBool())
+		var p *packet.Packet
+		h.mu.Lock()
+		for q, r := range h.pkts { // the same response object delivered again (a retransmission kept by the caller)
+			if r == op.At(2).Int64() {
+				if pp, ok := q.(*packet.Packet); ok && pp.Seq() == uint16(op.At(1).Uint64()) {
+					p = pp
+				}
+			}
+		}
+		h.mu.Unlock()
+		if p == nil {
+			p = response(uint16(op.At(1).Uint64()), op.At(2).Int64(), int32(op.At(3).Int64()), op.At(4).AsInt())
+		}
 		h.mu.Lock()
 		h.pkts[p] = op.At(2).Int64()
 		h.mu.Unlock()
 		var err error
 		if pn, _ := Catch(func() { err = h.cli.Dispatch(p) }); pn {
 			b = 2
+		} else if err == errCallback {
+			b = 3 // the callback's own error, handed back by Dispatch
 		} else if err != nil {
 			b = 1
 		}
@@ -391,6 +436,10 @@ func (h *hist) exec(op Sx, r *rec) {
 }
 
 func run(in Sx) Sx {
+	if in.Len() == 2 && in.At(1).Kind == 'i' { // (7 seed): the client's own reaper goroutine
+		code, what := reaperRun(in.At(1).Uint64())
+		return List(Int(-6), Int(code), Str(what))
+	}
 	if in.Len() == 3 && in.At(1).Kind == 'i' && in.At(0).AsInt() == 3 { // (3 trials seed): a sweep racing a response and a new call
 		code, what := sweepRace(in.At(1).AsInt(), in.At(2).Uint64())
 		return List(Int(-4), Int(code), Str(what))
@@ -569,6 +618,7 @@ func genHistory(rng *Rng) Sx {
 	rid := int64(0)
 	n := rng.Range(3, 40)
 	sweeps := []int64{500, 1000, 1001, 5000, 5001, 30000, 30001, 45000, 90000, 100000}
+	lastResp := map[uint16]Sx{}
 	for i := 0; i < n; i++ {
 		switch k := rng.Intn(20); {
 		case k < 8:
@@ -589,6 +639,10 @@ func genHistory(rng *Rng) Sx {
 				m.drop(x)
 			case j < 8 && len(m.used) > 0:
 				seq = m.used[rng.Intn(len(m.used))] // duplicate / late response
+				if prev, ok := lastResp[seq]; ok && rng.Bool() {
+					ops = append(ops, prev) // the very same packet object once more
+					continue
+				}
 			case j == 8:
 				seq = 0
 			default:
@@ -597,8 +651,11 @@ func genHistory(rng *Rng) Sx {
 			errno := int64(0)
 			if rng.Chance(3, 10) {
 				errno = int64(rng.Range(1, 23))
+				if rng.Chance(1, 8) {
+					errno = rng.PickI64(24, 1000, 1<<30, 1<<31-1) // codes without a name
+				}
 			}
-			dec := int64(Bool(!rng.Chance(3, 20)).Int64())
+			dec := rng.PickI64(0, 1, 1, 1, 1, 2, 2)
 			if rng.Chance(1, 4) {
 				// while this response's callback runs: a duplicate of it arrives on another dispatcher,
 				// the reaper's sweep passes, ReapTimeout runs
@@ -620,6 +677,7 @@ func genHistory(rng *Rng) Sx {
 				ops = append(ops, List(Int(1), Int(int64(seq)), Int(rid), Int(errno), Int(dec), ListOf(nested)))
 			} else {
 				ops = append(ops, Ints(1, int64(seq), rid, errno, dec))
+				lastResp[seq] = Ints(1, int64(seq), rid, errno, dec)
 			}
 			rid++
 		case k < 18:
@@ -871,6 +929,72 @@ func ttlEdges(n int, seed uint64) (int64, string) {
 		}
 	}
 	return r.code, r.what
+}
+
+// reaperRun: the client's own reaper goroutine (Go(): a 3 s ticker calling the sweep with the tick's
+// time) - an overdue call is moved to the expired list by it, the owner's ReapTimeout completes it once
+// with RequestTimeout, a call that is not overdue stays; cancelling the context ends the goroutine.
+// returns 0 ok | 5 not expired by the reaper after 3 ticks / wrong completion | 3 other call disturbed | 7 goroutine left | 9 inconclusive
+func reaperRun(seed uint64) (int64, string) {
+	const fReaper = "qnet.(*RpcClient).reaper"
+	count := func() int {
+		n := 0
+		for _, g := range GDump() {
+			if strings.Contains(g.Text, fReaper) {
+				n++
+			}
+		}
+		return n
+	}
+	before := count()
+	ctx, cancel := context.WithCancel(context.Background())
+	defer cancel()
+	cli := qnet.NewRpcClient(ctx, 8)
+	cli.VerifSetCounter(uint16(seed))
+	cli.Go()
+	var aCount, aCode, bCount, bCode int32
+	cli.AsyncCall(node, wrapperspb.String("q"), func(m proto.Message, code int32) error {
+		atomic.AddInt32(&aCount, 1)
+		atomic.StoreInt32(&aCode, code)
+		return nil
+	})
+	a := (<-cli.PendingQueue()).Seq()
+	cli.AsyncCall(node, wrapperspb.String("q"), func(m proto.Message, code int32) error {
+		atomic.AddInt32(&bCount, 1)
+		atomic.StoreInt32(&bCode, code)
+		return nil
+	})
+	b := (<-cli.PendingQueue()).Seq()
+	cli.VerifSetDeadline(a, time.Now().Add(-time.Second))
+	start := time.Now()
+	for {
+		seqs, exp := cli.VerifPending()
+		if exp == 1 && len(seqs) == 1 && seqs[0] == b {
+			break
+		}
+		if exp > 1 || len(seqs) == 0 || (len(seqs) == 1 && seqs[0] != b) {
+			return 3, "the reaper's sweep touched a call that is not overdue"
+		}
+		if time.Since(start) > 10*time.Second { // more than three ticks
+			return 5, "an overdue call was not moved to the expired list by the client's reaper goroutine within three of its ticks"
+		}
+		time.Sleep(20 * time.Millisecond)
+	}
+	if n := cli.ReapTimeout(); n != 1 || atomic.LoadInt32(&aCount) != 1 || atomic.LoadInt32(&aCode) != int32(codes.RequestTimeout) {
+		return 5, "the call expired by the reaper goroutine was not completed once with RequestTimeout"
+	}
+	body, _ := proto.Marshal(wrapperspb.String("r1"))
+	if err := cli.Dispatch(packet.New(msgID, b, fatchoy.PFlagRpc, body)); err != nil || atomic.LoadInt32(&bCount) != 1 || atomic.LoadInt32(&bCode) != 0 {
+		return 3, "the response to the other call was not delivered"
+	}
+	cancel()
+	for dl := time.Now().Add(5 * time.Second); count() > before; time.Sleep(10 * time.Millisecond) {
+		if time.Now().After(dl) {
+			return 7, "the reaper goroutine is still there 5 s after its context was cancelled"
+		}
+	}
+	atomic.AddInt64(&fullChecked, 4)
+	return 0, ""
 }
 
 // every sequence number outstanding: checked on the Go side only (a 65535-entry table is
@@ -1240,6 +1364,9 @@ func genUnbuffered(rng *Rng) Sx {
 }
 
 func nontrivial(in Sx) bool {
+	if in.Len() == 2 && in.At(1).Kind == 'i' {
+		return true
+	}
 	if in.Len() == 1 || in.Len() == 4 || (in.Len() == 3 && in.At(1).Kind == 'i') {
 		return true
 	}
@@ -1254,6 +1381,11 @@ func nontrivial(in Sx) bool {
 
 func gen(a Args, out *Out) {
 	rng := NewRng(a.Seed)
+	// the reaper scenario waits for a real 3 s tick: it runs alongside everything else
+	reaperIn := Ints(7, int64(rng.Fork().Intn(65536)))
+	reaperOut := make(chan Sx, 1)
+	go func() { reaperOut <- run(reaperIn) }()
+	defer func() { out.Case("reaper", true, reaperIn, <-reaperOut) }()
 	nhist, nwrap, nfull, nstress := 400, 3, 1, 12
 	if a.Thorough() {
 		nhist, nwrap, nfull, nstress = 8000, 30, 4, 300
